@@ -7,6 +7,7 @@ SPEC = {
         "runs": [{"args": [], "corpus": ""}],
     },
     "skip_model_prefix": ["x "],
+    "strip_obs": r" dig \S+",
     "rule": ("one case = one command packet sent through the real SessionManager.HandlePacket (special cases of handleCommandPacket, "
              "then the real CommandExecutor/CommandRegistry with every handler of internal/command and internal/app/server) into a fresh "
              "real in-memory server stack (memory storage, built-in cloud control, connection-code/port-mapping services, HTTP domain "
@@ -18,7 +19,15 @@ SPEC = {
              "handlers) over shared storage joined by a BridgeManager on an in-memory broker: sender identity x claimed body "
              "target_client_id x where the mapping's real target is connected (same node / other node / nowhere) x bridge on/off; "
              "the second run of every case also blanks the body's target_client_id unless the command is a DNS forward or a "
-             "client-to-client notification; observation = return value, response class, objects disclosed (id/secret substring search in everything "
+             "client-to-client notification, and drops the extra identity-like body keys: cases marked `e <v> <keys>` add EVERY "
+             "identity-like JSON key any struct of the server can decode (regenerated from the struct tags, Gen.c11.identityKeys; "
+             "the driver rejects a stale key list) to the body with a foreign client id; `dig` = digest of every payload pushed to "
+             "any connection and of every stored record created/changed (all fields; random ids, secrets and times removed), "
+             "required equal between the two runs; read faults: cases marked `q <plan>` run over a fault-injecting wrapper of the real "
+             "in-memory storage in which the i-th read of the named mapping's main record during the command fails transiently iff "
+             "bit i of the plan is set — every plan over the first 3 (thorough: 5) reads x identity x whose mapping, compared with "
+             "the model for MappingGet/MappingDelete/TrafficReport/SOCKS5 (single node) and judged by the predicate only (`x`) for "
+             "the other commands; observation = return value, response class, objects disclosed (id/secret substring search in everything "
              "the sender received), semantic diff of mappings/codes/domains, command packets pushed to every fake control connection, "
              "connections closed; compared token-for-token with the model and judged by the theorem's predicate; distinct = distinct "
              "case strings"),
@@ -37,6 +46,9 @@ SPEC = {
         "default DNS target (target_client_id <= 0) when the sender has active SOCKS mappings to several different targets: the "
         "implementation picks whichever Go's map iteration meets first; the model has a ghost `pick` (theorems quantify over it), the "
         "harness marks such cases `x` and judges them by the predicate only (counted as excluded-point in the distribution)",
+        "storage faults: only transient failures of READS of the one mapping record the command names are injected and modelled "
+        "(ghost `faults` schedule, universally quantified in the theorems); failing writes/deletes, faults on index lists or on code/"
+        "domain records are not",
         "quota branches (10 active codes, 50 active mappings per client) and expiry of codes/mappings are not modelled; generated worlds stay below them",
         "cross-node: the SOCKS5 tunnel-open broadcast (BroadcastTunnelOpen -> every node's handleTunnelOpenBroadcast) is driven through a "
         "BridgeManager double over an in-memory hub (the broker itself is not the repo's); handleDNSQueryCrossNode (connection-state "
